@@ -67,6 +67,8 @@ func valBuild(name string, seed uint64) *lib.Build {
 		b.PutSymlink("lnk-odd-dot", "./top.bin")
 		b.PutSymlink("sub/lnk-odd-up", "../sub/deep/")
 		b.PutSymlink("lnk-odd-slashes", "sub//deep/./two.bin")
+		b.PutSymlink("sib/lnk-dir", "deep") // the look-alike sibling holds links of the same name and destination
+		b.PutSymlink("sib/lnk-odd-up", "../sub/deep/")
 	default: // small
 		b.PutFile("e.bin", nil)
 		b.PutFile("t.bin", rb(10))
@@ -358,7 +360,18 @@ func c05Run(c lib.Case, env *lib.Env) lib.Result {
 	}
 	// fail-fast mode
 	var ffErr error
-	if s.Sibling {
+	special := false
+	for _, d := range s.Damages {
+		special = special || d.Op == "tofifo"
+	}
+	if special {
+		// a special file in the tree: termination is C16's property, here a watchdog only keeps the check from stalling
+		v := lib.RunWithQuiescence(func() { ffErr = pwr.AssertValid(dir, sig) }, 20*time.Second)
+		if !v.Returned {
+			res.Violate("validate-does-not-return", desc, v.Report)
+			return res
+		}
+	} else if s.Sibling {
 		ffErr = sibFF()
 	} else {
 		ffErr = pwr.AssertValid(dir, sig)
@@ -423,6 +436,34 @@ func c05Run(c lib.Case, env *lib.Env) lib.Result {
 			}
 			if w.Start < 0 || w.End < w.Start {
 				res.Violate("wound-range-malformed", desc, fmt.Sprintf("kind=%v index=%d start=%d end=%d", w.Kind, w.Index, w.Start, w.End))
+			}
+		}
+		// every signed directory that is not a directory now, and every signed symlink that is missing / of another kind /
+		// points elsewhere, is named by a wound of ITS kind and index
+		hasWound := func(kind pwr.WoundKind, idx int) bool {
+			for _, w := range wounds {
+				if w.Kind == kind && w.Index == int64(idx) {
+					return true
+				}
+			}
+			return false
+		}
+		for di, d := range sig.Container.Dirs {
+			if g := got.E[d.Path]; g == nil || g.Kind != lib.KDir {
+				res.Add("deviating_directories_checked", 1)
+				if !hasWound(pwr.WoundKind_DIR, di) {
+					res.Violate("deviating-directory-without-its-wound", desc, fmt.Sprintf("directory %s (index %d) deviates, no DIR wound names it", d.Path, di))
+					break
+				}
+			}
+		}
+		for si, l := range sig.Container.Symlinks {
+			if g := got.E[l.Path]; g == nil || g.Kind != lib.KSymlink || g.Dest != l.Dest {
+				res.Add("deviating_symlinks_checked", 1)
+				if !hasWound(pwr.WoundKind_SYMLINK, si) {
+					res.Violate("deviating-symlink-without-its-wound", desc, fmt.Sprintf("symlink %s (index %d) deviates, no SYMLINK wound names it", l.Path, si))
+					break
+				}
 			}
 		}
 		// coverage of differing offsets, per signed file that is a regular file at its own path
